@@ -35,6 +35,18 @@ CHECKS = {
  "C17": dict(technique="exhaustive enumeration (all values of 8/16-bit types) and boundary-lattice enumeration of conversions, oracles independent of rust_decimal arithmetic",
    text="From<i8|u8|i16|u16> on all values, wider integer types on the +-2^k, +-10^k, MIN/MAX, 2^96 lattice plus contiguous runs at type boundaries, From<f32|f64> on mantissa patterns x every exponent, integer() on a (mantissa, scale, sign) lattice against integer division, every accessor x every variant, From round trips for strings, booleans, decimals, lists.",
    note="Out-of-range i128/u128/f32/f64 and non-finite floats becoming 0 are recorded known findings (infallible From); float conversion judged to DBL_DIG/FLT_DIG digits.", design="§4 C17"),
+ "C06": dict(technique="explicit-state breadth-first search over (context, statement) transitions with canonical-state de-duplication; every transition executed on the real engine and on a reference evaluator (model)",
+   text="States are contexts, transitions are 46 statements (plain / all 10 compound assignments, failing statements, reads, nested and chained assignments, non-name targets, assignments inside call arguments and list literals, a global function name used as a variable) from 6 initial contexts, breadth-first to depth 4 (5). Each transition is run statement-by-statement on one Context, as one whole program, and (compound forms) against its expansion; results and complete context contents must equal the reference.",
+   note="Two to three names, depth 4 (5); merged states have equal futures because the canonical form holds every binding the evaluator can observe.", design="§4 C06"),
+ "C07": dict(technique="bounded exhaustive enumeration of expression trees with observable handlers x every error-injection position, call log compared with a reference evaluator (model)",
+   text="Every tree of <= 3 (4) inner nodes over 16 evaluating node kinds with logging leaves (context functions by call and by bare name) and logging registered operators / functions, un-faulted and with an Err injected at every handler invocation index: call log (names and argument values), result and final bindings must equal the reference (left to right, once each, selected branch only, nothing after the failing invocation).",
+   note="<= 3 (4) inner nodes; every parent/child kind pair at every child position appears from 2 nodes on.", design="§4 C07"),
+ "C15": dict(technique="exhaustive fault enumeration (program x handler invocation index x {Err, panic}) on the real engine with post-fault invariants, reference evaluator (model) for the truncated log",
+   text="Every program of the effects set x every invocation index k x {return Err, panic}: log equals the reference log truncated after k, Err gives Err, a panic reaches the caller as an unwind, and afterwards a 12-expression battery over all four registries (this thread and a new thread) and the same Context (get / get_variable / set_variable / exec, contents equal to the reference) behave as if the evaluation had just stopped.",
+   note="<= 3 (4) inner nodes; handler kinds: context function by call and bare name, global function, registered prefix / infix / setter / postfix operators.", design="§4 C15"),
+ "C18": dict(technique="exhaustive enumeration of all 2^14 descriptor-registration subsets x enumerated ASTs, compared with a reference rendering (model)",
+   text="All 16384 subsets of 14 (kind, name) registrations whose names are deliberately shared across kinds, reached through the clear hook + public setters (and the empty / singleton / full configurations also in fresh processes without the hook), crossed with every AST of <= 2 (3) operator nodes over 16 node kinds: describe() must equal the reference rendering (registered marker or documented default).",
+   note="Names limited to two per named kind; ASTs of <= 2 (3) operator nodes.", design="§4 C18"),
 }
 
 def main():
